@@ -66,6 +66,8 @@ pub enum Flavour
     FallibleWarn,
     /// `&mut World` system (reads events through a `SystemState`).
     Exclusive,
+    /// `&mut World` system returning `WarnErr`.
+    ExclusiveWarn,
 }
 
 /// How an instance comes into existence.
